@@ -192,3 +192,48 @@ Example C04_nonvacuous :
     bytesRead (conn s) = 15 /\ receiveWindowSize (conn s) = 24.
 Proof. exact example_reachable. Qed.
 Print Assumptions C04_nonvacuous.
+
+(** ** The receive-stream glue (repaired receive_stream.go, model FlowCtl/RecvModel.v).
+    [rreach]: any history of handleStreamFrame / handleResetStreamFrame(_AT) / CancelRead / Read /
+    getControlFrame calls on one receive stream in which no frame was answered with an error,
+    Reads deliver only received bytes and report io.EOF only at the final offset, the
+    cancellation error only once the cancellation is effective ([rop_ok]). *)
+From V Require Import FlowCtl.RecvModel FlowCtl.RecvProofs.
+
+(** Every completed receive stream (EOF read, reset, CancelRead): the final size is known, the
+    stream controller has received and credited exactly that many bytes (consumed or abandoned)
+    and so has the connection controller — in particular after CancelRead followed by a
+    RESET_STREAM_AT whose reliable size lies beyond the read position (the repaired leak). *)
+Theorem C04_completed_receive_stream_fully_credited : forall rw maxrw cw cmax s,
+  rreach rw maxrw cw cmax s -> completed s = true ->
+  exists f, finalOffset s = Some f /\
+            bytesRead (sb (fc s)) = f /\ highestReceived (sb (fc s)) = f /\
+            bytesRead (cn s) = f.
+Proof. exact completed_fully_credited. Qed.
+Print Assumptions C04_completed_receive_stream_fully_credited.
+
+Theorem C04_completion_reported : forall rw maxrw cw cmax s,
+  rreach rw maxrw cw cmax s -> finKnown s = true ->
+  cancelledLocally s = true \/ errorRead s = true -> completed s = true.
+Proof. exact completion_reported. Qed.
+Print Assumptions C04_completion_reported.
+
+(** getControlFrame never produces MAX_STREAM_DATA(0) (for ALL states). *)
+Theorem C04_no_zero_max_stream_data : forall s now rtt fast allow,
+  fst (fst (snd (rstep s (OCtrl now rtt fast allow)))) = 2 ->
+  snd (fst (snd (rstep s (OCtrl now rtt fast allow)))) <> 0.
+Proof. exact no_zero_max_stream_data. Qed.
+Print Assumptions C04_no_zero_max_stream_data.
+
+(** Regression example = the witness of the repaired defect: STREAM[0,3), Read 2, CancelRead,
+    STOP_SENDING packed, RESET_STREAM_AT(final 8, reliable 6 > readPos 2), Read -> error.
+    The history is legal, completes the stream, and all 8 bytes are credited (before the
+    repair the flow controller stayed at 2). *)
+Example C04_recv_regression :
+  let s := fst (rrun (new_rstream 16 32 64 128) rex_ops) in
+  rreach 16 32 64 128 s /\ completed s = true /\ finalOffset s = Some 8 /\
+  bytesRead (sb (fc s)) = 8 /\ bytesRead (cn s) = 8 /\ readPos s = 2 /\
+  snd (rrun (new_rstream 16 32 64 128) rex_ops) =
+    [(0, 0, 0); (0, 0, 1); (1, 0, 0); (1, 0, 0); (0, 1, 0); (0, 0, 1)].
+Proof. exact recv_example. Qed.
+Print Assumptions C04_recv_regression.
